@@ -48,6 +48,12 @@ CHECKS = {
  "C16": ("other", "coq-lmmm", "Coq alpha-invariance theorems for the fragment + source-to-source transformation search",
          "PARTIAL: C16_alpha_ref / C16_alpha_machine (reference semantics, compiled machine and published skeleton invariant under injective renaming of variables and functions, all programs / all wf programs); on the real compiler: renaming to arbitrary and compiler-looking names, redundant parentheses, layout/comments inside brackets, agreeing annotations on generated programs and shipped sources, both backends",
          "parser layout sensitivity and type inference not modelled (search only); known findings F43 F44 F45; defect F14 repaired"),
+ "C15": ("other", "coq-interner", "Coq theorems for the interner/arena model and the order-insensitive idioms + site audit regenerated from source + differential compilation",
+         "PARTIAL (narrow): history independence of any symbol program (logical relation), sort-on-unique-keys and running-maximum permutation invariance, every HashMap/HashSet iteration site found by the translator is classified (finite audit regenerated from source); beyond that a differential search: same source compiled alone, after shuffled histories and in 8 fresh processes must give byte-identical Mir, bytecode, WASM, skeleton, outputs, diagnostics",
+         "that the compiler uses symbols only through intern/equality/resolve is not proved; hash containers with inferred types are invisible to the regex translator; known findings F20-F23"),
+ "C19": ("other", "coq-interner", "Coq interleaving theorem for the interner model + multi-threaded differential runs",
+         "PARTIAL (narrow): for every history, thread set and schedule each thread's observations equal its solo run (atomic interner operations), split lookup/insert refuted, env-var register race exhibited; real threads (K = 2..16) compile and run distinct/identical sources and are compared with solo runs, deadlock = timeout",
+         "real schedules are sampled, Mutex atomicity trusted; known finding F11 (env var); defect F24 (dangling as_str) repaired"),
 }
 PENDING_REASON = "check under construction in this session (see DESIGN.md section 4); not yet claimed"
 
